@@ -343,6 +343,16 @@ def scratch_twin(tracks, extra=()):
     return twin
 
 
+def _same_values(a, b, rel=1e-9):
+    """equal up to the last few bits (two correct computations of the same quantity may sum
+    in a different order); any real maintenance bug is off by many orders of magnitude more"""
+    if isinstance(a, tuple) and isinstance(b, tuple):
+        return len(a) == len(b) and all(_same_values(x, y, rel) for x, y in zip(a, b))
+    if isinstance(a, float) and isinstance(b, float):
+        return a == b or math.isclose(a, b, rel_tol=rel, abs_tol=1e-12)
+    return a == b
+
+
 def _close(a, b, rel=1e-12):
     if a is None or b is None:
         return a is b
@@ -396,7 +406,7 @@ def inv_c08(tracks, differential=True, skip=()):
                 tk = "pos" if k == pos_key else k
                 a = norm(tracks.get_node_attr(n, k))
                 b = norm(twin.get_node_attr(n, tk))
-                if a != b:
+                if not _same_values(a, b):
                     bad.append((f"differential-{tk}", f"node {n}: incremental {k}={a}, from scratch {b}"))
     return bad
 
@@ -429,7 +439,7 @@ def inv_c09(tracks, bulk=True):
         if exp is None:
             continue
         got = tracks.get_edge_attr((u, v), "iou")
-        if got is None or norm(got) != norm(exp):
+        if got is None or not _same_values(norm(got), norm(exp), 1e-12):
             skip = int(tracks.get_time(v)) - int(tracks.get_time(u)) != 1
             bad.append(("iou-skip-edge" if skip else "iou", f"edge {(u, v)}: stored iou {got}, true overlap {exp}"))
     if bulk and not bad:
@@ -440,7 +450,7 @@ def inv_c09(tracks, bulk=True):
         for u, v in sorted(g.edges):
             a = norm(tracks.get_edge_attr((u, v), "iou"))
             b = norm(twin.get_edge_attr((u, v), "iou"))
-            if a != b:
+            if not _same_values(a, b, 1e-12):
                 skip = int(tracks.get_time(v)) - int(tracks.get_time(u)) != 1
                 bad.append(("bulk-vs-incremental-skip-edge" if skip else "bulk-vs-incremental",
                             f"edge {(u, v)}: incremental {a}, bulk {b}"))
